@@ -104,6 +104,12 @@ def run(ctx):
                 # ---------------- parser crate
                 if crate == PARSER and meth == 'unwrap' and cal.startswith('core::option::'):
                     owner_fn = m.owner(b.name).split('::')[-1]
+                    g2_und = getattr(ctx, 'g2_undecided', set())
+                    if (owner_fn in g2_und or (g2_und and owner_fn in getattr(g, 'concat_helpers', ()))) and c.line not in g2_lines:
+                        classes.setdefault('lexeme-concat-unwrap(undecided)', [0, 0])[0] += 1
+                        r.undecided('%s:%s:lexeme-unwrap' % (b.crate, owner_fn), '%s:%s' % (b.file, c.line),
+                                    'unwrap in %s: the lexeme interpreter (G2) could not model this function, so the join is not proven adjacent' % owner_fn)
+                        continue
                     ok = owner_fn not in g2_bad_fns and c.line in g2_lines
                     count('lexeme-concat-unwrap', ok, b, c, 'Option::unwrap outside the lexeme joins that G2 proves adjacent / non-empty '
                           '(line %d not visited by G2 or G2 failing)' % c.line, {'site': b.name, 'line': c.line, 'discharged_by': 'G2'})
